@@ -79,7 +79,8 @@ def run(ctx):
             ('CTL', ('E', ('U', P, Q))), ('CTL', ('E', ('U', P, ('not', P)))), ('CTL', ('A', ('R', Q, P))), ('CTL', ('E', ('R', P, Q))),
             # negated next-time formulas reach the LTL tableau through CTL* (tie-breaking of the closure order)
             ('CTLS', ('A', ('G', ('X', ('not', P))))), ('CTLS', ('A', ('and', Q, ('X', ('not', P))))), ('CTLS', ('E', ('and', ('F', ('X', ('not', P))), ('G', Q)))),
-            ('CTLS', ('A', ('or', ('X', ('not', P)), ('G', ('not', ('X', Q)))))), ('LTL', ('A', ('G', ('X', ('not', P))))), ('LTL', ('A', ('U', ('not', ('X', P)), ('X', ('not', Q)))))]
+            ('CTLS', ('A', ('or', ('X', ('not', P)), ('G', ('not', ('X', Q)))))), ('LTL', ('A', ('X', ('or', P, Q)))), ('LTL', ('A', ('X', ('U', P, Q)))), ('LTL', ('A', ('G', ('X', ('or', Q, ('not', P)))))),
+            ('LTL', ('A', ('G', ('X', ('not', P))))), ('LTL', ('A', ('U', ('not', ('X', P)), ('X', ('not', Q)))))]
     for _ in range(300 if q else 3000):
         lg, f = rnd.choice(sens)
         n = rnd.choice([4, 5, 6, 7]) if lg == 'CTL' else rnd.choice([3, 4, 5])
@@ -88,7 +89,7 @@ def run(ctx):
     hs_cases = []
     for i, b in enumerate(base):
         hs_cases.append({'tid': i, 'logic': b['logic'], 'K': b['K'], 'f': b['f'], 'naming': ['str', 'tuple', 'mixed'][i % 3],
-                         'shuf': 1000 + i, 'mode': 'text' if i % 5 == 0 else 'obj'})
+                         'shuf': 1000 + i, 'mode': 'text' if i % 5 == 0 else 'raw' if i % 5 in (1, 2) else 'obj'})
     cf_path = os.path.join(ctx.tmp, 'c06_cases.json')
     json.dump(hs_cases, open(cf_path, 'w'))
 
@@ -109,15 +110,15 @@ def run(ctx):
     for i, b in enumerate(base):
         K, f, lg = b['K'], b['f'], b['logic']
         members = [dict(logic=lg, f=f, naming='int')]
-        for nm in ('str', 'tuple', 'mixed', 'neg'):
-            members.append(dict(logic=lg, f=f, naming=nm, shuf=rnd.randrange(1 << 30), mode=rnd.choice(['obj', 'text'])))
+        for nm in ('str', 'tuple', 'mixed', 'neg', 'obj'):
+            members.append(dict(logic=lg, f=f, naming=nm, shuf=rnd.randrange(1 << 30), mode=rnd.choice(['obj', 'text', 'raw'])))
         for m in ({'p': 'q', 'q': 'p'}, {'p': 'alpha', 'q': 'b_2'}, {'p': 'zz9', 'q': 'A1'}):
             members.append(dict(logic=lg, f=rename_atoms(T(f), m), K=rename_K(K, m), naming=rnd.choice(['int', 'str']), shuf=rnd.randrange(1 << 30)))
         g = {'law': 'equal', 'K': K, 'members': members, 'family': 'naming/order/atom renaming', 'pre': [per_seed[j][i] for j in range(len(seeds))]}
         groups.append(g)
         ext = [dict(logic=lg, f=f, naming='int')]
         for _ in range(2):
-            ext.append(dict(logic=lg, f=f, K=extend_K(K, rnd), naming=rnd.choice(['int', 'str', 'tuple']), shuf=rnd.randrange(1 << 30)))
+            ext.append(dict(logic=lg, f=f, K=extend_K(K, rnd), naming=rnd.choice(['int', 'str', 'tuple', 'obj']), shuf=rnd.randrange(1 << 30)))
         groups.append({'law': 'ext', 'K': K, 'members': ext, 'family': 'added unreachable states'})
     events = run_groups_with_pre(ctx, groups)
     for g, e in zip(groups, events):
